@@ -144,8 +144,8 @@ Definition transpose (m : comp) (use_data : bool) (indices_max : nat) (sl : opti
   let ci := calc_indptr es n_out sl Lc in
   let iptr := fst ci in
   let nnz := snd ci in
-  (* create_dataset('data', shape=n_non_zero, chunks=(min(n_non_zero, 1000000),)) *)
-  if use_data && (nnz =? 0) then Err EValue else
+  (* 'data' and 'indices' are created with chunks=None when n_non_zero = 0: an empty
+     slice gives empty arrays beside the all-zero pointer array *)
   bind (fill_blocks (S n_out) (chunks_of es L) sl E iptr iptr 0 (repeat 0 nnz) (repeat 0%Z nnz))
        (fun r =>
   Ok {| t_out := {| ptr := iptr; idx := fst (fst r);
@@ -168,19 +168,15 @@ Definition data_reads (m : comp) (sl : option (nat * nat)) (L : nat) (blocks : l
    minor indices, one worker each, joined in range order *)
 Definition transpose_v2 (m : comp) (use_data : bool) (indices_max n_proc : nat) (E L Lc : nat)
   : res comp :=
-  if n_proc =? 0 then Err EValue else
-  let chunk := (indices_max + n_proc - 1) / n_proc in
-  if chunk =? 0 then Err EValue else                       (* range(0, indices_max, 0) *)
+  if n_proc =? 0 then Err EValue else                      (* max_gb / n_processors *)
+  (* indices_chunk_size = max(1, ceil(indices_max / n_processors)) *)
+  let chunk := Nat.max 1 ((indices_max + n_proc - 1) / n_proc) in
   bind (res_map (fun s => match transpose m use_data indices_max (Some s) E L Lc with
                           | Ok t => Ok (t_out t)
                           | Err _ => Err EWorker
                           end) (range_chunks indices_max chunk)) (fun pieces =>
+  (* 'indices' and 'data' have indices_size entries (chunks=None when that is 0) *)
   let indices_size := sum_list (map (fun p => length (idx p)) pieces) in
-  let indptr_size := S (sum_list (map (fun p => length (ptr p) - 1) pieces)) in
-  (* create_dataset('indices', shape=(indices_size,), chunks=(min(indices_size, 1000000),)) *)
-  if indices_size =? 0 then Err EValue else
-  (* create_dataset('data', shape=(indices_size,), chunks=(min(indptr_size, 1000000),)) *)
-  if use_data && (Z.of_nat indices_size <? Z.min (Z.of_nat indptr_size) 1000000)%Z then Err EValue else
   let r := merge_from 0 pieces in
   Ok {| ptr := fst r ++ [indices_size]; idx := fst (snd r); dat := snd (snd r) |}).
 
